@@ -133,7 +133,7 @@ def _chunk(args):
 def correspondence(ctx):
     r = random.Random(ctx.seed * 79 + 1)
     texts = []
-    for i in range(40 if ctx.tier == "quick" else 500):
+    for i in range(100 if ctx.tier == "quick" else 500):
         rules = [x for x in gen_base(r) if x[2][0] != "tel"]
         f = gen_observer(r, rules)
         texts.append(tl.render_prog(rules) + "\n#program always. wobs :- not not &tel {{ {} }}.".format(tl.render_tel(f)))
@@ -160,7 +160,7 @@ def _corr_one(args):
         return {"pairs": 0, "equations_evaluated": 0, "horizons": 0}, [{"layer": "L4", "text": text, "what": "exception " + c + ": " + str(e)[:200]}]
 
 def search(ctx, deep):
-    n = (12 if ctx.tier == "quick" else 150) * (3 if deep else 1)
+    n = (36 if ctx.tier == "quick" else 150) * (3 if deep else 1)
     H = 2
     work = [(ctx.seed * 2003 + j, H, n) for j in range(ctx.jobs)]
     nchecks = 0
